@@ -262,6 +262,8 @@ pub fn single_fault_scenarios(op: &str, cfg: &CfgSpec) -> Vec<(Scenario, bool)> 
         }
         if from_start && *kind == Kind::SystemInfo && *occ == 0 {
             out.push((mk(vec![PlanEntry { kind: *kind, occ: Some(0), from_start, directive: Directive { outcome: Outcome::WrongSerial, ..Default::default() } }]), true));
+            // the identity query is aborted by the terminal: the connection is not vetted and must not be used
+            out.push((mk(vec![PlanEntry { kind: *kind, occ: Some(0), from_start, directive: Directive { outcome: Outcome::Abort(0x83), ..Default::default() } }]), true));
         }
     }
     if !from_start {
